@@ -168,9 +168,10 @@ def run(ctx):
         text = gen.soup(ctx.rng)
         frag = ctx.rng.choice(frags)
         streams, abstracts = {}, {}
+        nshtml = i % 4 != 3         # a quarter of the trees: namespaceHTMLElements=False (HTML elements carry no namespace)
         for kind in ("etree", "dom"):
             try:
-                tree = gen.parse_real(text, tb=kind, fragment=frag, full=True)
+                tree = gen.parse_real(text, tb=kind, fragment=frag, full=True, ns=nshtml)
             except Exception:
                 continue
             if kind == "etree":
